@@ -294,6 +294,15 @@ fn slow_callback() {
     }
 }
 
+/// u64::MAX stands for "never": the largest interval the type can express
+fn cleanup_of(ms: u64) -> Duration {
+    if ms == u64::MAX {
+        Duration::MAX
+    } else {
+        Duration::from_millis(ms.max(1))
+    }
+}
+
 fn wrapper_guard<T>(f: impl FnOnce() -> T) -> Result<T, String> {
     std::panic::catch_unwind(std::panic::AssertUnwindSafe(f)).map_err(|p| {
         let _ = panics_take();
@@ -587,7 +596,7 @@ where
                 .set_buffer_items(cfg.buffer_items)
                 .set_ignore_internal_cost(cfg.ignore_internal_cost)
                 .set_metrics(cfg.metrics)
-                .set_cleanup_duration(Duration::from_millis(cfg.cleanup_ms.max(1)))
+                .set_cleanup_duration(cleanup_of(cfg.cleanup_ms))
                 .set_coster(TagCoster)
                 .set_update_validator(cfg.validator)
                 .set_callback(cb)
@@ -601,7 +610,7 @@ where
                 .set_buffer_items(cfg.buffer_items)
                 .set_ignore_internal_cost(cfg.ignore_internal_cost)
                 .set_metrics(cfg.metrics)
-                .set_cleanup_duration(Duration::from_millis(cfg.cleanup_ms.max(1)))
+                .set_cleanup_duration(cleanup_of(cfg.cleanup_ms))
                 .set_coster(TagCoster)
                 .set_update_validator(cfg.validator)
                 .set_callback(cb)
@@ -2041,7 +2050,7 @@ pub fn stress_strategy(kind: Kind, async_pct: u32) -> BoxedStrategy<StressCase> 
             proptest::sample::select(vec![0usize, 1, 2, 64]),
             any::<bool>(),
             any::<bool>(),
-            proptest::sample::select(vec![1u64, 10, 500, 2000]),
+            prop_oneof![9 => proptest::sample::select(vec![1u64, 10, 500, 2000, 3_600_000]), 1 => Just(u64::MAX)],
             any::<u64>(),
         )
             .prop_flat_map(move |(exec, nc, mc, bs, bi, metrics, ign, cleanup_ms, perturb)| {
